@@ -1,2 +1,77 @@
-(* C13 property theorems: statements only; every proof is [exact lemma]. (under construction) *)
-From Gv Require Import C12.Model C13.Spec.
+(* C13 property theorems: statements only; every proof is [exact lemma].
+   Same LTS as C12 (Gv.C12.Model, repaired code = variant [fixed]); all action lists, all oracles. *)
+From Gv Require Import C12.Model C12.Spec C13.Spec C13.ProofsC13 C13.ProofsCause C13.ProofsFinal C12.Witness.
+From Coq Require Import List Bool Arith PeanoNat.
+Import ListNotations.
+
+(* Source.Start is called at most once per trigger instance, and at any time at most one trigger
+   instance is registered (live) per trigger id (input, headers) *)
+Theorem c13_one_start_per_live_trigger :
+  forall flt wresf ev_bad hbfail acts st,
+    run fixed flt wresf ev_bad hbfail init acts = Some st ->
+    one_start (chron st) /\ NoDup (map fst (reg st)) /\ (forall t, t_started (trigs st t) <= 1).
+Proof. exact final_one_start. Qed.
+Print Assumptions c13_one_start_per_live_trigger.
+
+(* two registered subscribers share a trigger instance iff their trigger ids are equal *)
+Theorem c13_shared_iff_same_key :
+  forall flt wresf ev_bad hbfail acts st s1 s2,
+    run fixed flt wresf ev_bad hbfail init acts = Some st -> In s1 (byid st) -> In s2 (byid st) ->
+    (s_tid (subs st s1) = s_tid (subs st s2) <-> s_key (subs st s1) = s_key (subs st s2)).
+Proof. exact final_shared_iff_same_key. Qed.
+Print Assumptions c13_shared_iff_same_key.
+
+(* quiescent: no thread has a step left, and the resolver was shut down or every subscriber was asked
+   to leave by its client or the source of its trigger said Done / failed to start *)
+Theorem c13_registry_empty :
+  forall flt wresf ev_bad hbfail acts st,
+    run fixed flt wresf ev_bad hbfail init acts = Some st -> quiescent st -> reg st = [] /\ byid st = [].
+Proof. exact final_registry_empty. Qed.
+Print Assumptions c13_registry_empty.
+
+Theorem c13_counters_balanced :
+  forall flt wresf ev_bad hbfail acts st,
+    run fixed flt wresf ev_bad hbfail init acts = Some st -> quiescent st -> counters_balanced (chron st).
+Proof. exact final_counters_balanced. Qed.
+Print Assumptions c13_counters_balanced.
+
+Theorem c13_all_trigger_ctx_cancelled :
+  forall flt wresf ev_bad hbfail acts st t,
+    run fixed flt wresf ev_bad hbfail init acts = Some st -> quiescent st -> t < ntrig st ->
+    t_cancelled (trigs st t) = true /\ In t (cancels (chron st)).
+Proof. exact final_all_trigger_ctx_cancelled. Qed.
+Print Assumptions c13_all_trigger_ctx_cancelled.
+
+Theorem c13_every_subscriber_completed :
+  forall flt wresf ev_bad hbfail acts st s,
+    run fixed flt wresf ev_bad hbfail init acts = Some st -> quiescent st -> In s (allsubs st) ->
+    s_closed (subs st s) = 1 /\ In (OClosed s) (chron st).
+Proof. exact final_every_subscriber_completed. Qed.
+Print Assumptions c13_every_subscriber_completed.
+
+(* a subscriber is removed only for a cause of its own (client request incl. write / flush /
+   heartbeat / hook failure paths, Done or start failure of ITS trigger instance, shutdown) *)
+Theorem c13_teardown_has_cause :
+  forall flt wresf ev_bad hbfail acts st s,
+    run fixed flt wresf ev_bad hbfail init acts = Some st -> s_removed (subs st s) = true -> cause st s.
+Proof. exact final_teardown_has_cause. Qed.
+Print Assumptions c13_teardown_has_cause.
+
+(* HISTORICAL (variant hist_b: markTriggerInitialized stores and reports outside Resolver.mu):
+   a removal between lookup and store leaves TriggerCount at +1 at quiescence. *)
+Theorem c13_counters_balanced_refuted :
+  exists acts st, run hist_b flt0 wres0 bad0 hb0 init acts = Some st /\ quiescent st /\ ~ counters_balanced (chron st).
+Proof. exact counters_balanced_refuted_proof. Qed.
+Print Assumptions c13_counters_balanced_refuted.
+
+(* HISTORICAL (variant hist_c: updater callbacks look the trigger up by id only): the late Done() of
+   an old source detaches a newer trigger registered under the same id. *)
+Theorem c13_teardown_has_cause_refuted :
+  exists acts st s, run hist_c flt0 wres0 bad0 hb0 init acts = Some st /\ s_removed (subs st s) = true /\ ~ cause st s.
+Proof. exact teardown_has_cause_refuted_proof. Qed.
+Print Assumptions c13_teardown_has_cause_refuted.
+
+Example c13_example_quiescent :
+  exists st, run fixed flt0 wres0 bad0 hb0 init ex_run = Some st /\ quiescent st /\
+    length (allsubs st) = 2 /\ ntrig st = 1 /\ starts (chron st) = [0] /\ sub_inc (chron st) = 2 /\ trig_inc (chron st) = 1.
+Proof. exact example_quiescent_proof. Qed.
